@@ -3,15 +3,18 @@
 // time plus an offset the harness advances.
 package vclock
 
-import "time"
+import (
+	"sync/atomic"
+	"time"
+)
 
-var offset time.Duration
+var offset atomic.Int64
 
 // Now is time.Now plus the harness offset.
-func Now() time.Time { return time.Now().Add(offset) }
+func Now() time.Time { return time.Now().Add(time.Duration(offset.Load())) }
 
 // Advance moves the clock forward.
-func Advance(d time.Duration) { offset += d }
+func Advance(d time.Duration) { offset.Add(int64(d)) }
 
 // Reset removes the offset.
-func Reset() { offset = 0 }
+func Reset() { offset.Store(0) }
